@@ -141,6 +141,9 @@ frames:
 	}
 	ser := append([]byte(nil), g.Serial.Bytes()...)
 	s := g.finish()
+	if g.unclosed {
+		return out, "speaker-channel-not-closed", fmt.Errorf("Cleanup of an instance with audio output left its speaker channels open")
+	}
 	if !bytes.Equal(ser, serM.Bytes()) {
 		return out, "serial-differs", fmt.Errorf("serial output differs: documented order wrote %d bytes, runFrame %d", serM.Len(), len(ser))
 	}
@@ -286,6 +289,9 @@ func c26RunProgress(c c26Progress) (sig string, err error) {
 		}
 	}
 	s := g.finish()
+	if g.unclosed {
+		return "speaker-channel-not-closed", fmt.Errorf("Cleanup of an instance with audio output left its speaker channels open")
+	}
 	if c.Audio {
 		pairs := len(s) / 2
 		lo, hi := 739*c.Frames, 740*c.Frames
